@@ -763,7 +763,7 @@ func checkC15(tier, raceBin string) int {
 	// the per-call clauses (inputs intact, coalescing again / from a fresh parse gives an equal event) over
 	// every group the C09 enumerations produce (all st_mode values, all record types single / repeated /
 	// without SYSCALL, every native syscall, every arrangement of auxiliary records, non-ASCII and relative names)
-	enumx.Run(run, "C15", []string{"c15:c09-modes", "c15:c09-groups", "c15:c09-singles", "c15:c09-repeats", "c15:c09-names", "c15:c09-syscalls", "c15:c09-missing", "c15:c09-times", "c15:c09-outcomes", "c15:c09-relations", "c15:c09-paths"}, tier, 16, true)
+	enumx.Run(run, "C15", []string{"c15:c09-modes", "c15:c09-groups", "c15:c09-singles", "c15:c09-repeats", "c15:c09-names", "c15:c09-syscalls", "c15:c09-missing", "c15:c09-times", "c15:c09-outcomes", "c15:c09-relations", "c15:c09-paths", "c15:c09-equalcounts"}, tier, 16, true)
 	hs := c15Histories(maxLen)
 	var jobs []interface{}
 	n := 64
